@@ -13,6 +13,14 @@ open Slock.Value (Cell getLockData)
 /-- the key record was unlinked from the database (`RemoveLockManager` ran, or it never existed) -/
 def W.Reclaimed (w : W) : Prop := w.gone = true ∧ w.db.hasKey w.k.key = false
 
+/-- what a step does to the table of key records: nothing, or — once, by `RemoveLockManager` — this key's record is unlinked -/
+def W.DbStep (w w' : W) : Prop :=
+  (w'.db.keys = w.db.keys ∧ w'.db.keyCount = w.db.keyCount ∧ w'.gone = w.gone) ∨
+  (w.gone = false ∧ w'.gone = true ∧ w'.db.keys = w.db.keys.filter (·.key != w.k.key) ∧ w'.db.keyCount = decU32 w.db.keyCount)
+
+theorem W.DbStep.same (w w' : W) (h1 : w'.db.keys = w.db.keys) (h2 : w'.db.keyCount = w.db.keyCount) (h3 : w'.gone = w.gone) :
+    w.DbStep w' := Or.inl ⟨h1, h2, h3⟩
+
 structure Fr (w w' : W) : Prop where
   key : w'.k.key = w.k.key
   leader : w'.db.leader = w.db.leader
@@ -21,12 +29,24 @@ structure Fr (w w' : W) : Prop where
   out : ∃ more, w'.out = w.out ++ more
   gone : w.gone = true → w'.gone = true
   recl : w.Reclaimed → w'.Reclaimed
+  rid : w.db.nextRid ≤ w'.db.nextRid
+  dbk : w.DbStep w'
 
-theorem Fr.refl (w : W) : Fr w w := ⟨rfl, rfl, rfl, fun _ => rfl, ⟨[], by simp⟩, id, id⟩
+theorem Fr.refl (w : W) : Fr w w := ⟨rfl, rfl, rfl, fun _ => rfl, ⟨[], by simp⟩, id, id, Nat.le_refl _, Or.inl ⟨rfl, rfl, rfl⟩⟩
+
+theorem W.DbStep.trans {a b c : W} (hk : b.k.key = a.k.key) (h1 : a.DbStep b) (h2 : b.DbStep c) : a.DbStep c := by
+  unfold W.DbStep at *
+  rcases h1 with ⟨a1, a2, a3⟩ | ⟨a1, a2, a3, a4⟩
+  · rcases h2 with ⟨b1, b2, b3⟩ | ⟨b1, b2, b3, b4⟩
+    · exact Or.inl ⟨b1.trans a1, b2.trans a2, b3.trans a3⟩
+    · exact Or.inr ⟨by rw [← a3]; exact b1, b2, by rw [b3, a1, hk], by rw [b4, a2]⟩
+  · rcases h2 with ⟨b1, b2, b3⟩ | ⟨b1, _⟩
+    · exact Or.inr ⟨a1, by rw [b3]; exact a2, by rw [b1]; exact a3, by rw [b2]; exact a4⟩
+    · rw [a2] at b1; exact absurd b1 (by simp)
 
 theorem Fr.trans {a b c : W} (h1 : Fr a b) (h2 : Fr b c) : Fr a c := by
   refine ⟨h2.key.trans h1.key, h2.leader.trans h1.leader, h2.now.trans h1.now, ?_, ?_, fun h => h2.gone (h1.gone h),
-    fun h => h2.recl (h1.recl h)⟩
+    fun h => h2.recl (h1.recl h), Nat.le_trans h1.rid h2.rid, W.DbStep.trans h1.key h1.dbk h2.dbk⟩
   · intro h; rw [h2.aof (by rw [h1.leader]; exact h), h1.aof h]
   · obtain ⟨m1, e1⟩ := h1.out
     obtain ⟨m2, e2⟩ := h2.out
@@ -55,9 +75,9 @@ theorem FQ.trans {a b c : W} (h1 : FQ a b) (h2 : FQ b c) : FQ a c := ⟨h1.fr.tr
 /-- editing the key record by a function that keeps key, cell and `locked` -/
 theorem FQ.modK (w : W) (f : Key → Key) (hk : (f w.k).key = w.k.key) (hc : (f w.k).cell = w.k.cell) (hl : (f w.k).locked = w.k.locked) :
     FQ w (w.modK f) :=
-  ⟨⟨hk, rfl, rfl, fun _ => rfl, ⟨[], by simp⟩, id, fun h => ⟨h.1, by simpa [hk] using h.2⟩⟩, ⟨rfl, by simp [hc], hl, rfl⟩⟩
+  ⟨⟨hk, rfl, rfl, fun _ => rfl, ⟨[], by simp⟩, id, fun h => ⟨h.1, by simpa [hk] using h.2⟩, Nat.le_refl _, Or.inl ⟨rfl, rfl, rfl⟩⟩, ⟨rfl, by simp [hc], hl, rfl⟩⟩
 theorem FQ.modR (w : W) (rid : Nat) (f : Rec → Rec) : FQ w (w.modR rid f) :=
-  ⟨⟨rfl, rfl, rfl, fun _ => rfl, ⟨[], by simp⟩, id, id⟩, ⟨rfl, rfl, rfl, rfl⟩⟩
+  ⟨⟨rfl, rfl, rfl, fun _ => rfl, ⟨[], by simp⟩, id, id, Nat.le_refl _, Or.inl ⟨rfl, rfl, rfl⟩⟩, ⟨rfl, rfl, rfl, rfl⟩⟩
 theorem FQ.ref (w : W) (rid : Nat) : FQ w (w.ref rid) := FQ.modR _ _ _
 theorem FQ.when (w : W) (b : Bool) (f : W → W) (h : FQ w (f w)) : FQ w (w.when b f) := by
   cases b
@@ -68,20 +88,26 @@ theorem Fr.when (w : W) (b : Bool) (f : W → W) (h : Fr w (f w)) : Fr w (w.when
   · exact Fr.refl _
   · exact h
 theorem FQ.ctr (w : W) (f : Counters → Counters) : FQ w (w.ctr f) :=
-  ⟨⟨rfl, rfl, rfl, fun _ => rfl, ⟨[], by simp⟩, id, id⟩, ⟨rfl, rfl, rfl, rfl⟩⟩
+  ⟨⟨rfl, rfl, rfl, fun _ => rfl, ⟨[], by simp⟩, id, id, Nat.le_refl _, Or.inl ⟨rfl, rfl, rfl⟩⟩, ⟨rfl, rfl, rfl, rfl⟩⟩
 theorem FQ.bumpErr (w : W) : FQ w w.bumpErr := FQ.ctr _ _
 theorem Fr.reply (w : W) (c : Cmd) (a b : Nat) (d : Option Bytes) : Fr w (w.reply c a b d) :=
-  ⟨rfl, rfl, rfl, fun _ => rfl, ⟨_, rfl⟩, id, id⟩
+  ⟨rfl, rfl, rfl, fun _ => rfl, ⟨_, rfl⟩, id, id, Nat.le_refl _, Or.inl ⟨rfl, rfl, rfl⟩⟩
 
 /-- editing only `locked` -/
 theorem Fr.modLocked (w : W) (f : Key → Key) (hk : (f w.k).key = w.k.key) : Fr w (w.modK f) :=
-  ⟨hk, rfl, rfl, fun _ => rfl, ⟨[], by simp⟩, id, fun h => ⟨h.1, by simpa [hk] using h.2⟩⟩
+  ⟨hk, rfl, rfl, fun _ => rfl, ⟨[], by simp⟩, id, fun h => ⟨h.1, by simpa [hk] using h.2⟩, Nat.le_refl _, Or.inl ⟨rfl, rfl, rfl⟩⟩
 
 theorem Fr.removeIfZero (w : W) : Fr w w.removeIfZero := by
-  refine ⟨by simp, by simp, by simp, fun _ => by simp, ⟨[], by simp⟩, removeIfZero_gone_mono w, ?_⟩
-  intro h
-  have : w.removeIfZero = w := by unfold W.removeIfZero; simp [h.1]
-  rw [this]; exact h
+  refine ⟨by simp, by simp, by simp, fun _ => by simp, ⟨[], by simp⟩, removeIfZero_gone_mono w, ?_, ?_, ?_⟩
+  · intro h
+    have : w.removeIfZero = w := by unfold W.removeIfZero; simp [h.1]
+    rw [this]; exact h
+  · rcases removeIfZero_cases w with e | ⟨_, _, _, _, hd⟩
+    · rw [e]; exact Nat.le_refl _
+    · rw [hd]; exact Nat.le_refl _
+  · rcases removeIfZero_cases w with e | ⟨hg, _, h0, _, hd⟩
+    · rw [e]; exact Or.inl ⟨rfl, rfl, rfl⟩
+    · exact Or.inr ⟨h0, hg, by rw [hd]; rfl, by rw [hd]; rfl⟩
 
 /-- when `removeIfZero` fires, the record is unlinked -/
 theorem removeIfZero_reclaimed (w : W) (h : w.removeIfZero.gone = true) (h0 : w.gone = false) : w.removeIfZero.Reclaimed := by
@@ -95,12 +121,24 @@ theorem procData_keys (w : W) (ct : Slock.Value.CmdType) (c : Cmd) (f : Option B
   · rfl
   · simp only []; split <;> rfl
 
+theorem procData_nextRid (w : W) (ct : Slock.Value.CmdType) (c : Cmd) (f : Option Bytes) (rid : Nat) :
+    (w.procData ct c f rid).db.nextRid = w.db.nextRid := by
+  unfold W.procData; split
+  · rfl
+  · simp only []; split <;> rfl
+theorem procData_keyCount (w : W) (ct : Slock.Value.CmdType) (c : Cmd) (f : Option Bytes) (rid : Nat) :
+    (w.procData ct c f rid).db.keyCount = w.db.keyCount := by
+  unfold W.procData; split
+  · rfl
+  · simp only []; split <;> rfl
+
 theorem hasKey_congr {a b : DB} (h : a.keys = b.keys) (n : Nat) : a.hasKey n = b.hasKey n := by
   unfold DB.hasKey DB.findKey; rw [h]
 
 theorem Fr.procData (w : W) (ct : Slock.Value.CmdType) (c : Cmd) (f : Option Bytes) (rid : Nat) : Fr w (w.procData ct c f rid) :=
   ⟨by simp, by simp, by simp, fun _ => by simp, ⟨[], by simp⟩, fun h => by simpa using h,
-   fun h => ⟨by simpa using h.1, by rw [hasKey_congr (procData_keys w ct c f rid), procData_key]; exact h.2⟩⟩
+   fun h => ⟨by simpa using h.1, by rw [hasKey_congr (procData_keys w ct c f rid), procData_key]; exact h.2⟩,
+   by rw [procData_nextRid]; exact Nat.le_refl _, Or.inl ⟨procData_keys w ct c f rid, procData_keyCount w ct c f rid, by simp⟩⟩
 
 /-! ### journalling -/
 
@@ -111,8 +149,8 @@ theorem FQ.pushLockAof (w : W) (rid flag : Nat) : FQ w (w.pushLockAof rid flag) 
   · rename_i hl
     simp only []
     split
-    · exact ⟨⟨rfl, rfl, rfl, fun _ => rfl, ⟨[], by simp⟩, id, id⟩, ⟨rfl, rfl, rfl, rfl⟩⟩
-    · refine ⟨⟨by simp, rfl, rfl, ?_, ⟨[], by simp⟩, id, ?_⟩, ⟨rfl, by simpa using aofLockData_vstrip w.k true rid, by simp, rfl⟩⟩
+    · exact ⟨⟨rfl, rfl, rfl, fun _ => rfl, ⟨[], by simp⟩, id, id, Nat.le_refl _, Or.inl ⟨rfl, rfl, rfl⟩⟩, ⟨rfl, rfl, rfl, rfl⟩⟩
+    · refine ⟨⟨by simp, rfl, rfl, ?_, ⟨[], by simp⟩, id, ?_, Nat.le_refl _, Or.inl ⟨rfl, rfl, rfl⟩⟩, ⟨rfl, by simpa using aofLockData_vstrip w.k true rid, by simp, rfl⟩⟩
       · intro h; simp [h] at hl
       · intro h; exact ⟨h.1, by simpa [DB.hasKey, DB.findKey] using h.2⟩
 
@@ -127,8 +165,8 @@ theorem FQ.pushUnLockAof (w : W) (rid : Nat) (lc : Cmd) (fa ia : Bool) (flag : N
   · exact FQ.refl _
   · rename_i hl
     split
-    · exact ⟨⟨rfl, rfl, rfl, fun _ => rfl, ⟨[], by simp⟩, id, id⟩, ⟨rfl, rfl, rfl, rfl⟩⟩
-    · refine ⟨⟨by simp, rfl, rfl, ?_, ⟨[], by simp⟩, id, ?_⟩, ⟨rfl, by simpa using aofLockData_vstrip w.k false rid, by simp, rfl⟩⟩
+    · exact ⟨⟨rfl, rfl, rfl, fun _ => rfl, ⟨[], by simp⟩, id, id, Nat.le_refl _, Or.inl ⟨rfl, rfl, rfl⟩⟩, ⟨rfl, rfl, rfl, rfl⟩⟩
+    · refine ⟨⟨by simp, rfl, rfl, ?_, ⟨[], by simp⟩, id, ?_, Nat.le_refl _, Or.inl ⟨rfl, rfl, rfl⟩⟩, ⟨rfl, by simpa using aofLockData_vstrip w.k false rid, by simp, rfl⟩⟩
       · intro h; simp [h] at hl
       · intro h; exact ⟨h.1, by simpa [DB.hasKey, DB.findKey] using h.2⟩
 
@@ -139,9 +177,9 @@ theorem FQ.journalUnlock (w : W) (rid : Nat) (fa ia : Bool) (flag : Nat) : FQ w 
 /-! ### wheels and records -/
 
 theorem FQ.addTimeOut (w : W) (rid : Nat) : FQ w (w.addTimeOut rid) :=
-  ⟨⟨rfl, rfl, rfl, fun _ => rfl, ⟨[], by simp [W.addTimeOut]⟩, id, id⟩, ⟨rfl, rfl, rfl, rfl⟩⟩
+  ⟨⟨rfl, rfl, rfl, fun _ => rfl, ⟨[], by simp [W.addTimeOut]⟩, id, id, Nat.le_refl _, Or.inl ⟨rfl, rfl, rfl⟩⟩, ⟨rfl, rfl, rfl, rfl⟩⟩
 theorem FQ.schedExpried (w : W) (rid : Nat) : FQ w (w.schedExpried rid) :=
-  ⟨⟨rfl, rfl, rfl, fun _ => rfl, ⟨[], by simp [W.schedExpried]⟩, id, id⟩, ⟨rfl, rfl, rfl, rfl⟩⟩
+  ⟨⟨rfl, rfl, rfl, fun _ => rfl, ⟨[], by simp [W.schedExpried]⟩, id, id, Nat.le_refl _, Or.inl ⟨rfl, rfl, rfl⟩⟩, ⟨rfl, rfl, rfl, rfl⟩⟩
 theorem FQ.addExpried (w : W) (rid : Nat) : FQ w (w.addExpried rid) := by
   unfold W.addExpried
   exact (FQ.schedExpried w rid).trans (FQ.when _ _ _ (FQ.pushLockAofN _ _ _))
@@ -151,7 +189,7 @@ theorem FQ.dropLongT (w : W) (rid : Nat) : FQ w (w.dropLongT rid) := FQ.when _ _
 theorem FQ.dropLongE (w : W) (rid : Nat) : FQ w (w.dropLongE rid) := FQ.when _ _ _ (FQ.removeLongE _ _)
 
 theorem FQ.newLock (w : W) (c : Cmd) (d : Option Bytes) : FQ w (w.newLock c d).1 :=
-  ⟨⟨rfl, rfl, rfl, fun _ => rfl, ⟨[], by simp [W.newLock]⟩, id, id⟩, ⟨rfl, rfl, rfl, rfl⟩⟩
+  ⟨⟨rfl, rfl, rfl, fun _ => rfl, ⟨[], by simp [W.newLock]⟩, id, id, Nat.le_succ _, Or.inl ⟨rfl, rfl, rfl⟩⟩, ⟨rfl, rfl, rfl, rfl⟩⟩
 
 @[simp] theorem Key.addLock_key (k : Key) (r : Nat) (f : Rec → Rec) : (k.addLock r f).key = k.key := by unfold Key.addLock; split <;> simp
 @[simp] theorem Key.addLock_cell (k : Key) (r : Nat) (f : Rec → Rec) : (k.addLock r f).cell = k.cell := by unfold Key.addLock; split <;> simp
